@@ -323,7 +323,8 @@ fn exec_mutants(t: &mut Tape, st: &mut Stats) -> Result<(), String> {
         }
     }
     let ns = t.range(0, 8);
-    let sched: Vec<u8> = (0..ns).map(|_| match t.weighted(&[2, 3, 2]) { 0 => 0, 1 => t.range(1, 9) as u8, _ => t.below(256) as u8 }).collect();
+    // schedule bytes: everything / tiny steps / anything / arrivals that end at a line structure (before CR, between CR and LF, after LF)
+    let sched: Vec<u8> = (0..ns).map(|_| match t.weighted(&[2, 3, 2, 2]) { 0 => 0, 1 => t.range(1, 9) as u8, 2 => t.below(256) as u8, _ => t.range(200, 255) as u8 }).collect();
     st.case_digest = t.digest();
     st.describe(|| json!({"stage": "mutants", "config": cfg.describe(), "schedule": sched, "mutations": kinds, "server_len": server.len(), "server_head": String::from_utf8_lossy(&server[..server.len().min(300)]), "server_hex": if server.len() <= 2048 { hex(&server) } else { String::new() }}));
     run_one(&cfg, &sched, &server, false, st)
